@@ -13,7 +13,7 @@ def queries():
     qs = []
     for n in range(0, 9):
         for lb in (0, 4, 8):
-            quick = (lb == 0 and n in (0, 1, 2, 3, 4)) or (lb == 4 and n in (3, 6)) 
+            quick = (lb == 0 and n in (0, 1, 2, 3, 4)) or (lb == 4 and n in (3, 4, 6))
             qs.append(Q('b64_n%d_lb%d' % (n, lb), 'h_base64', 'base64: encode == RFC 4648, decode(encode(m)) == m; message length %d, line_break %d, all byte values' % (n, lb),
                         ['N=%d' % n, 'LB=%d' % lb], ['base64.cpp'], quick=quick, weight=n))
     for n in range(0, 6):
